@@ -293,4 +293,282 @@ theorem parseNames_items {l : List Str} {t : Str} (h : ItemOrList QDescr l t) : 
       List.append_assoc, tokens_wspT]
     exact h4
 
+/-! ### qdstring -/
+
+theorem qdEnc_no_quote {v t : Str} (h : QdEnc v t) : ∀ c ∈ t, c ≠ 39 := by
+  induction h with
+  | nil => simp
+  | raw c v t h1 h2 _ ih =>
+    intro x hx
+    rcases List.mem_cons.1 hx with rfl | hx
+    · exact h1
+    · exact ih x hx
+  | quote v t _ ih =>
+    intro x hx
+    simp only [List.mem_cons] at hx
+    rcases hx with rfl | rfl | rfl | hx
+    · decide
+    · decide
+    · decide
+    · exact ih x hx
+  | bslash b v t hb _ ih =>
+    intro x hx
+    simp only [List.mem_cons] at hx
+    rcases hx with rfl | rfl | rfl | hx
+    · decide
+    · decide
+    · omega
+    · exact ih x hx
+
+theorem qdEnc_ne_nil {v t : Str} (h : QdEnc v t) (hv : v ≠ []) : t ≠ [] := by
+  cases h <;> simp_all
+
+theorem dstringItems_scan {v t : Str} (h : QdEnc v t) (rest : Str) :
+    ∀ fuel, t.length ≤ fuel → dstringItems fuel (t ++ 39 :: rest) = 39 :: rest := by
+  induction h with
+  | nil =>
+    intro fuel _
+    cases fuel with
+    | zero => rfl
+    | succ f => simp [dstringItems, QUOTE]
+  | raw c v t h1 h2 _ ih =>
+    intro fuel hf
+    obtain ⟨f, rfl⟩ : ∃ f, fuel = f + 1 := ⟨fuel - 1, by simp at hf; omega⟩
+    simpa [dstringItems, QUOTE, BSLASH, h1, h2] using ih f (by simp at hf; omega)
+  | quote v t _ ih =>
+    intro fuel hf
+    obtain ⟨f, rfl⟩ : ∃ f, fuel = f + 1 := ⟨fuel - 1, by simp at hf; omega⟩
+    simpa [dstringItems, QUOTE, BSLASH] using ih f (by simp at hf; omega)
+  | bslash b v t hb _ ih =>
+    intro fuel hf
+    obtain ⟨f, rfl⟩ : ∃ f, fuel = f + 1 := ⟨fuel - 1, by simp at hf; omega⟩
+    simpa [dstringItems, QUOTE, BSLASH, hb] using ih f (by simp at hf; omega)
+
+theorem unescapeQd_enc {v t : Str} (h : QdEnc v t) : ∀ fuel, t.length ≤ fuel → unescapeQd fuel t = v := by
+  induction h with
+  | nil => intro fuel _; cases fuel <;> rfl
+  | raw c v t h1 h2 _ ih =>
+    intro fuel hf
+    obtain ⟨f, rfl⟩ : ∃ f, fuel = f + 1 := ⟨fuel - 1, by simp at hf; omega⟩
+    simpa [unescapeQd, BSLASH, h2] using ih f (by simp at hf; omega)
+  | quote v t _ ih =>
+    intro fuel hf
+    obtain ⟨f, rfl⟩ : ∃ f, fuel = f + 1 := ⟨fuel - 1, by simp at hf; omega⟩
+    simpa [unescapeQd, BSLASH, hexDigitVal, Schema.isDigit] using ih f (by simp at hf; omega)
+  | bslash b v t hb _ ih =>
+    intro fuel hf
+    obtain ⟨f, rfl⟩ : ∃ f, fuel = f + 1 := ⟨fuel - 1, by simp at hf; omega⟩
+    have h92 : hexDigitVal 53 * 16 + hexDigitVal b = 92 := by rcases hb with rfl | rfl <;> rfl
+    simpa [unescapeQd, BSLASH, hb, h92] using ih f (by simp at hf; omega)
+
+theorem parseQd_body {v t : Str} (h : QdEnc v t) : parseQd t = v := by
+  unfold parseQd
+  simp only
+  rw [stripChars_none [QUOTE] t (fun c hc => by simpa [QUOTE] using qdEnc_no_quote h c hc)]
+  exact unescapeQd_enc h _ (Nat.le_refl _)
+
+theorem parseQd_quoted {v t : Str} (h : QdEnc v t) : parseQd ([39] ++ t ++ [39]) = v := by
+  unfold parseQd
+  simp only
+  have hq : ∀ c ∈ t, [QUOTE].contains c = false := fun c hc => by simpa [QUOTE] using qdEnc_no_quote h c hc
+  rw [stripChars_mid [QUOTE] [39] t [39] (by simp [QUOTE]) (by simp [QUOTE])
+    (fun c hc => hq c (List.mem_of_mem_head? hc)) (fun c hc => hq c (List.mem_of_mem_getLast? hc))]
+  exact unescapeQd_enc h _ (Nat.le_refl _)
+
+theorem parseQd_qdString {v t : Str} (h : QdString v t) : parseQd t = v := by
+  obtain ⟨_, body, hb, rfl⟩ := h
+  exact parseQd_quoted hb
+
+theorem qdstring_scan {v t : Str} (h : QdString v t) (rest : Str) : qdstring (t ++ rest) = some rest := by
+  obtain ⟨hv, body, hb, rfl⟩ := h
+  have hne := qdEnc_ne_nil hb hv
+  rw [show [39] ++ body ++ [39] ++ rest = 39 :: (body ++ 39 :: rest) by simp, qdstring,
+    if_pos (show (39 : Nat) = QUOTE from rfl)]
+  have hd := dstringItems_scan hb rest (body ++ 39 :: rest).length (by simp)
+  simp only [hd]
+  rw [if_pos (by
+    cases body with
+    | nil => exact (hne rfl).elim
+    | cons c r => simp; omega)]
+  simp [QUOTE]
+
+theorem qdstring_spec : ItemSpec QdString qdstring where
+  scan := fun _ _ rest h => qdstring_scan h rest
+  quote := fun x t h => by obtain ⟨_, body, _, rfl⟩ := h; exact ⟨body ++ [39], by simp⟩
+  fail := fun r => by rw [qdstring, if_neg (by decide)]
+
+theorem qdString_nsp {v t : Str} (h : QdString v t) : NSp t := item_nsp qdstring_spec h
+
+/-! ### oids -/
+
+theorem delim_stop_oid {s : Str} (h : Delim s) : Stop isOidCh s := delim_stop h (by decide) (by decide)
+
+theorem dollarSep_head {xs : List Str} {body : Str} (h : DollarSep xs body) :
+    ∃ c r, body = c :: r ∧ isOidCh c = true := by
+  cases h with
+  | one x h => exact oid_head h
+  | cons x a b xs ts h _ =>
+    obtain ⟨c, r, rfl, hc⟩ := oid_head h
+    exact ⟨c, r ++ wspT a ++ [36] ++ wspT b ++ ts, by simp, hc⟩
+
+theorem dollarSep_nsp {xs : List Str} {body : Str} (h : DollarSep xs body) : NSp body := by
+  obtain ⟨c, r, rfl, hc⟩ := dollarSep_head h
+  intro h32; subst h32; exact absurd hc (by decide)
+
+theorem dollarSep_length {xs : List Str} {body : Str} (h : DollarSep xs body) : xs.length ≤ body.length := by
+  induction h with
+  | one x h => obtain ⟨c, r, rfl, _⟩ := oid_head h; simp
+  | cons x a b xs ts h _ ih => obtain ⟨c, r, rfl, _⟩ := oid_head h; simp; omega
+
+theorem dollarItems_stop (fuel b : Nat) (rest : Str) :
+    dollarItems fuel (wspT b ++ 41 :: rest) = wspT b ++ 41 :: rest := by
+  cases fuel with
+  | zero => rfl
+  | succ f =>
+    rw [dollarItems]
+    simp only [wsp_wspT_nsp b (nsp_cons (show (41 : Nat) ≠ 32 by decide))]
+    rw [if_neg (by decide)]
+
+theorem dollarSep_scan {xs : List Str} {body : Str} (h : DollarSep xs body) (b : Nat) (rest : Str) :
+    ∀ fuel, xs.length ≤ fuel →
+      ∃ r', oid (body ++ (wspT b ++ 41 :: rest)) = some r' ∧ dollarItems fuel r' = wspT b ++ 41 :: rest := by
+  induction h with
+  | one x h =>
+    intro fuel _
+    refine ⟨_, oid_scan h ?_, dollarItems_stop fuel b rest⟩
+    cases b with
+    | zero => exact stop_cons (by decide)
+    | succ n => exact stop_cons (by decide)
+  | cons x a b' xs ts h hs ih =>
+    intro fuel hf
+    obtain ⟨f, rfl⟩ : ∃ f, fuel = f + 1 := ⟨fuel - 1, by simp at hf; omega⟩
+    obtain ⟨r'', h1, h2⟩ := ih f (by simp at hf; omega)
+    refine ⟨wspT a ++ 36 :: (wspT b' ++ (ts ++ (wspT b ++ 41 :: rest))), ?_, ?_⟩
+    · rw [show x ++ wspT a ++ [36] ++ wspT b' ++ ts ++ (wspT b ++ 41 :: rest)
+          = x ++ (wspT a ++ 36 :: (wspT b' ++ (ts ++ (wspT b ++ 41 :: rest)))) by simp]
+      apply oid_scan h
+      cases a with
+      | zero => exact stop_cons (by decide)
+      | succ n => exact stop_cons (by decide)
+    · rw [dollarItems]
+      simp only [wsp_wspT_nsp a (nsp_cons (show (36 : Nat) ≠ 32 by decide))]
+      rw [if_pos (show (36 : Nat) = DOLLAR from rfl)]
+      simp only [wsp_wspT_nsp b' (nsp_append (dollarSep_nsp hs)), h1, h2]
+
+theorem oids_scan {l : List Str} {t : Str} (h : Oids l t) {rest : Str} (hr : Stop isOidCh rest) :
+    oids (t ++ rest) = some rest := by
+  cases h with
+  | bare x h =>
+    obtain ⟨c, r, rfl, hc⟩ := oid_head h
+    have := oid_scan h hr
+    rw [List.cons_append] at this ⊢
+    rw [oids, if_neg (by intro h40; subst h40; exact absurd hc (by decide)), this]
+  | list xs body a b hs =>
+    rw [show [40] ++ wspT a ++ body ++ wspT b ++ [41] ++ rest = 40 :: (wspT a ++ (body ++ (wspT b ++ 41 :: rest))) by simp,
+      oids, if_pos (show (40 : Nat) = LP from rfl)]
+    obtain ⟨r', h1, h2⟩ := dollarSep_scan hs b rest (40 :: (wspT a ++ (body ++ (wspT b ++ 41 :: rest)))).length
+      (by have := dollarSep_length hs; simp; omega)
+    simp only [wsp_wspT_nsp a (nsp_append (dollarSep_nsp hs)), h1, h2,
+      wsp_wspT_nsp b (nsp_cons (show (41 : Nat) ≠ 32 by decide))]
+    rw [if_pos (show (41 : Nat) = RP from rfl)]
+
+theorem oids_nsp {l : List Str} {t : Str} (h : Oids l t) : NSp t := by
+  cases h with
+  | bare x h => exact oid_nsp h
+  | list xs body a b hs => exact nsp_cons (by decide)
+
+/-! ### `_parse_oids` -/
+
+theorem oidCh_facts {c : Nat} (h : isOidCh c = true) : c ≠ 32 ∧ c ≠ 39 ∧ c ≠ 40 ∧ c ≠ 41 ∧ c ≠ 36 := by
+  simp only [isOidCh, Bool.or_eq_true, beq_iff_eq, DOT] at h
+  rcases h with h | h
+  · exact keyChar_facts h
+  · omega
+
+theorem stripSp_oid {x : Str} (h : IsOidText x) (a b : Nat) : stripChars [SPC] (wspT a ++ x ++ wspT b) = x := by
+  have hc := oid_chars h
+  apply stripChars_mid [SPC] (wspT a) x (wspT b)
+  · intro c hc; rw [mem_wspT hc]; decide
+  · intro c hc; rw [mem_wspT hc]; decide
+  · intro c hh
+    have := oidCh_facts (hc c (List.mem_of_mem_head? hh))
+    simp [SPC]; omega
+  · intro c hh
+    have := oidCh_facts (hc c (List.mem_of_mem_getLast? hh))
+    simp [SPC]; omega
+
+theorem not_mem_wspT_of_ne {c : Nat} (h : c ≠ 32) (n : Nat) : c ∉ wspT n := fun hm => h (mem_wspT hm)
+
+theorem dollarSep_split {xs : List Str} {body : Str} (h : DollarSep xs body) (b : Nat) :
+    (Schema.splitOn DOLLAR (wspT b ++ body)).map (stripChars [SPC]) = xs := by
+  induction h generalizing b with
+  | one x h =>
+    have hno : DOLLAR ∉ wspT b ++ x := by
+      intro hm
+      rcases List.mem_append.1 hm with hm | hm
+      · exact absurd (mem_wspT hm) (by decide)
+      · exact (oidCh_facts (oid_chars h _ hm)).2.2.2.2 rfl
+    rw [splitOn_last _ _ hno, List.map_singleton]
+    have := stripSp_oid h b 0
+    rw [wspT_zero, List.append_nil] at this
+    rw [this]
+  | cons x a b' xs ts h hs ih =>
+    have hno : DOLLAR ∉ wspT b ++ x ++ wspT a := by
+      intro hm
+      simp only [List.mem_append] at hm
+      rcases hm with (hm | hm) | hm
+      · exact absurd (mem_wspT hm) (by decide)
+      · exact (oidCh_facts (oid_chars h _ hm)).2.2.2.2 rfl
+      · exact absurd (mem_wspT hm) (by decide)
+    rw [show wspT b ++ (x ++ wspT a ++ [36] ++ wspT b' ++ ts) = (wspT b ++ x ++ wspT a) ++ DOLLAR :: (wspT b' ++ ts) by
+        simp [DOLLAR],
+      splitOn_piece _ _ _ hno, List.map_cons, stripSp_oid h b a, ih b']
+
+theorem dollarSep_ends {xs : List Str} {body : Str} (h : DollarSep xs body) :
+    (∀ c, body.head? = some c → isOidCh c = true) ∧ (∀ c, body.getLast? = some c → isOidCh c = true) := by
+  induction h with
+  | one x h =>
+    exact ⟨fun c hc => oid_chars h c (List.mem_of_mem_head? hc), fun c hc => oid_chars h c (List.mem_of_mem_getLast? hc)⟩
+  | cons x a b xs ts h hs ih =>
+    obtain ⟨c0, r0, rfl, hc0⟩ := oid_head h
+    obtain ⟨c1, r1, rfl, _⟩ := dollarSep_head hs
+    refine ⟨fun c hc => ?_, fun c hc => ?_⟩
+    · simp only [List.cons_append, List.head?_cons, Option.some.injEq] at hc
+      subst hc; exact hc0
+    · apply ih.2
+      rw [List.getLast?_append] at hc
+      simpa using hc
+
+theorem parseOids_oids {l : List Str} {t : Str} (h : Oids l t) : parseOids (some t) = l := by
+  have hne : t.isEmpty = false := by
+    have := oids_nsp h
+    cases t with
+    | nil => exact this.elim
+    | cons c r => rfl
+  unfold parseOids
+  simp only [hne]
+  change (Schema.splitOn DOLLAR (stripChars [LP, RP, SPC] t)).map (stripChars [SPC]) = l
+  cases h with
+  | bare x h =>
+    rw [stripChars_none _ _ (fun c hc => by
+      have := oidCh_facts (oid_chars h c hc); simp [LP, RP, SPC]; omega)]
+    exact dollarSep_split (.one _ h) 0
+  | list xs body a b hs =>
+    obtain ⟨h1, h2⟩ := dollarSep_ends hs
+    have := stripChars_mid [LP, RP, SPC] ([40] ++ wspT a) body (wspT b ++ [41])
+      (by
+        intro c hc
+        rcases List.mem_append.1 hc with hc | hc
+        · simp at hc; subst hc; decide
+        · rw [mem_wspT hc]; decide)
+      (by
+        intro c hc
+        rcases List.mem_append.1 hc with hc | hc
+        · rw [mem_wspT hc]; decide
+        · simp at hc; subst hc; decide)
+      (fun c hc => by have := oidCh_facts (h1 c hc); simp [LP, RP, SPC]; omega)
+      (fun c hc => by have := oidCh_facts (h2 c hc); simp [LP, RP, SPC]; omega)
+    rw [show [40] ++ wspT a ++ body ++ wspT b ++ [41] = ([40] ++ wspT a) ++ body ++ (wspT b ++ [41]) by simp, this]
+    exact dollarSep_split hs 0
+
 end Verif.Proofs.SchemaG
